@@ -234,7 +234,8 @@ UNIT = dict(
     dict(id='he_scan_int', entry='h_scan_int', mode='INT', tiers=['quick'], defs=dict(XV_HE=1, XV_ABS_VEC=1, XV_E=2, XV_K=3, XV_L=2, XV_LA=1), unwindset=unw(2, 3, 2, 1, 'he'), cls='shape-complete', timeout=900),
     dict(id='hp_scan_int_3', entry='h_scan_int', mode='INT', tiers=['thorough'], defs=dict(XV_ABS_VEC=1, XV_E=3, XV_K=3, XV_L=3, XV_LA=2), unwindset=unw(3, 3, 3, 2, 'hp'), cls='shape-complete', timeout=3000),
     dict(id='he_scan_int_3', entry='h_scan_int', mode='INT', tiers=['thorough'], defs=dict(XV_HE=1, XV_ABS_VEC=1, XV_E=3, XV_K=3, XV_L=3, XV_LA=2), unwindset=unw(3, 3, 3, 2, 'he'), cls='shape-complete', timeout=3000),
-    dict(id='he_dtor', entry='h_dtor', defs=dict(XV_HE=1, XV_ABS_VEC=1, XV_E=3, XV_K=3, XV_L=3, XV_LA=2), unwindset=unw(3, 3, 3, 2, 'he'), cls='shape-complete', timeout=900),
+    dict(id='he_dtor', entry='h_dtor', tiers=['quick'], defs=dict(XV_HE=1, XV_ABS_VEC=1, XV_E=2, XV_K=3, XV_L=2, XV_LA=1), unwindset=unw(2, 3, 2, 1, 'he'), cls='shape-complete', timeout=900),
+    dict(id='he_dtor_3', entry='h_dtor', tiers=['thorough'], defs=dict(XV_HE=1, XV_ABS_VEC=1, XV_E=3, XV_K=3, XV_L=3, XV_LA=2), unwindset=unw(3, 3, 3, 2, 'he'), cls='shape-complete', timeout=3000),
     dict(id='he_trigger', entry='h_trigger', defs=dict(XV_HE=1), cls='unbounded'),
     # everything real in one piece (no stub for reclaim_nodes): cross-check of the composition, small shape
     dict(id='hp_scan_whole', entry='h_scan', defs=dict(XV_E=2, XV_K=2, XV_L=2, XV_LA=1), unwindset=unw(2, 2, 2, 1, 'hp'), cls='shape-complete', timeout=3000),
